@@ -58,7 +58,7 @@ func (s *Server) Subscribe(stream gnmi.GNMI_SubscribeServer) error {
 		err = s.processSubscribeRequest(stream.Context(), sctx, req)
 		if err != nil {
 			log.Warn(err)
-			return err
+			return errors.Status(err).Err()
 		}
 	}
 }
